@@ -1,10 +1,14 @@
 #!/bin/bash
-# usage: seed_eval.sh <prop> <patch.diff> [tier]   - applies the patch to /repo, runs the check, reverts
+# usage: seed_eval.sh <prop> <patch.diff> [tier] [check args...]  - applies the patch to /repo, runs the check, reverts.
+# the evidence file of the property is saved and restored: evidence under /verif always describes the UNCHANGED tree
 set -u
-P=$1; PATCH=$2; TIER=${3:-quick}
+P=$1; PATCH=$2; TIER=${3:-quick}; shift; shift; shift 2>/dev/null
 cd /repo && git diff --quiet || { echo "/repo not clean"; exit 2; }
+cp /verif/evidence/$P.json /tmp/evidence_keep_$P.json 2>/dev/null
 git -C /repo apply "$PATCH" || { echo "patch does not apply"; exit 2; }
-cd /verif && ./check "$P" --tier "$TIER" > /tmp/seed_eval_$P.log 2>&1; RC=$?
+cd /verif && ./check "$P" --tier "$TIER" "$@" > /tmp/seed_eval_$P.log 2>&1; RC=$?
 git -C /repo checkout -- .
+cp /verif/evidence/$P.json /tmp/evidence_seeded_$P.json 2>/dev/null
+[ -f /tmp/evidence_keep_$P.json ] && cp /tmp/evidence_keep_$P.json /verif/evidence/$P.json
 tail -8 /tmp/seed_eval_$P.log
 echo "RC=$RC"
